@@ -639,6 +639,13 @@ def chain_to(sc, stop):
     return out
 
 
+def nonlocal_label(o, m):
+    """o declares m nonlocal and supp still treats (a binding of) m as o's own"""
+    if 'del' in binding_kinds(o, m):
+        return 'del-of-nonlocal-declared-name-makes-it-local-to-declaring-scope'
+    return 'nonlocal-rebinding-treated-as-local' if o.kind != 'class' else 'nonlocal-rebinding-in-class-body-treated-as-class-local'
+
+
 KEY_COMP_TARGET = 'comprehension-target-visible-outside-comprehension'
 KEY_CLASS_GLOBAL = 'class-global-declaration-applied-inside-class-level-comprehension'
 
@@ -672,7 +679,7 @@ def classify(b, sc, raw, m, exp, ekind, alt, o):
         # whatever the compiler's owner is, a class body other than the one the read is in never qualifies
         sym = o.lookup(m)
         if sym is not None and sym.is_nonlocal():
-            return 'nonlocal-rebinding-in-class-body-treated-as-class-local' + suffix
+            return nonlocal_label(o, m) + suffix
         if alt_is_comp_target and alt_comp.noncomp() is o:
             return 'class-level-comprehension-target-visible-in-nested-scope' + suffix
         return 'class-binding-visible-in-nested-scope' + suffix
@@ -696,8 +703,7 @@ def classify(b, sc, raw, m, exp, ekind, alt, o):
             # supp stopped at a scope the compiler looks through
             sym = o.lookup(m)
             if sym is not None and sym.is_nonlocal():
-                return ('nonlocal-rebinding-treated-as-local' if o.kind != 'class'
-                        else 'nonlocal-rebinding-in-class-body-treated-as-class-local') + suffix
+                return nonlocal_label(o, m) + suffix
             if alt_is_comp_target and alt_comp.noncomp() is o:
                 if o.kind == 'class' and o is not rs:
                     return 'class-level-comprehension-target-visible-in-nested-scope' + suffix
@@ -721,8 +727,7 @@ def classify(b, sc, raw, m, exp, ekind, alt, o):
         if sym is not None and sym.is_declared_global():
             return 'global-declared-binding-owned-by-declaring-scope' + suffix
         if sym is not None and sym.is_nonlocal():
-            return ('nonlocal-rebinding-treated-as-local' if o.kind != 'class'
-                    else 'nonlocal-rebinding-in-class-body-treated-as-class-local') + suffix
+            return nonlocal_label(o, m) + suffix
         if alt_is_comp_target and alt_comp.noncomp() is o:
             if o.kind == 'class' and o is not rs:
                 return 'class-level-comprehension-target-visible-in-nested-scope' + suffix
